@@ -140,8 +140,15 @@ func (fr *Frame) cutLoop(li *loopInfo, st *State, preds []*ssa.BasicBlock, pstat
 	}
 	// 4. assume invariants
 	if li.spec != nil {
+		var inst []Term
+		for _, phi := range phis {
+			if isInteger(phi.Type()) {
+				v := fr.vals[phi].C[0]
+				inst = append(inst, v, iAdd(v, "1"), iSub(v, "1"))
+			}
+		}
 		for _, inv := range li.spec.Invariants {
-			t, err := fr.evalClause(inv, st, fr.entry, nil)
+			t, err := fr.evalClauseInst(inv, st, fr.entry, nil, inst)
 			if err != nil {
 				return fmt.Errorf("%s:%d: %v", inv.File, inv.Line, err)
 			}
@@ -152,6 +159,30 @@ func (fr *Frame) cutLoop(li *loopInfo, st *State, preds []*ssa.BasicBlock, pstat
 	li.phiVals = map[*ssa.Phi]Value{}
 	for _, phi := range phis {
 		li.phiVals[phi] = fr.vals[phi]
+	}
+	if li.spec != nil && fr.dry == 0 {
+		hdr := li.hdrState
+		hvals := li.phiVals
+		invs := li.spec.Invariants
+		loop := li
+		vc.univ = append(vc.univ, func(inst []Term) {
+			savedVals := map[*ssa.Phi]Value{}
+			for phi, v := range hvals {
+				savedVals[phi] = fr.vals[phi]
+				fr.vals[phi] = v
+			}
+			savedLoop := fr.curLoop
+			fr.curLoop = loop
+			for _, inv2 := range invs {
+				if h, err := fr.evalClauseInst(inv2, hdr, fr.entry, nil, inst); err == nil {
+					vc.assume(hdr, h)
+				}
+			}
+			fr.curLoop = savedLoop
+			for phi, v := range savedVals {
+				fr.vals[phi] = v
+			}
+		})
 	}
 	if li.spec != nil && li.spec.Decreases != nil {
 		v, _, err := fr.evalExprText(li.spec.Decreases.Text, st, fr.entry, nil)
@@ -197,10 +228,13 @@ func (fr *Frame) backEdge(li *loopInfo, from *ssa.BasicBlock, es *State) {
 	}
 	fr.loopFrameCheck(es, li.modKeys, "loop_frame_keep", fr.loopName(li), li.pos)
 	for _, inv := range li.spec.Invariants {
-		t, err := fr.evalClause(inv, es, fr.entry, nil)
+		t, sks, err := fr.evalGoal(inv, es, fr.entry, nil)
 		if err != nil {
 			vc.errs = append(vc.errs, fmt.Sprintf("%s:%d: %v", inv.File, inv.Line, err))
 			continue
+		}
+		if fr.dry == 0 {
+			vc.instantiateAt(sks)
 		}
 		vc.oblige(es, "inv_keep", fr.loopName(li)+":"+clauseLabel(inv), t, li.pos, inv.Text)
 	}
